@@ -233,6 +233,10 @@ func c07(c *core.Ctx, r *core.Report) {
 					if classifies && an.ReachableFrom(in, call) {
 						late = true
 					}
+					// a deferred classification runs when this function exits, i.e. after the send
+					if _, isDefer := call.(*ssa.Defer); isDefer && classifies {
+						late = true
+					}
 				}
 				r.Check(!late, core.FuncName(fn)+"#release-after-classification", an.Pos(c, in), "the waiting body is released after the recovered value was classified", "the channel send that releases the waiting body comes before the recovered value is classified: the body reads its outcome before the failure is marked, and the mark lands in the next iteration on this worker")
 			})
